@@ -12,6 +12,11 @@
 //!                                                                                  -> n=<ticks run> t=<current_tick> out=<taps>/<taps>/..
 //!   iadd/isub <u64> <i64>, idiff <u64> <u64>, dadd/dsub <i64> <i64>, dneg <i64>    -> value | panic
 //! `<taps>` is `tap:v,v|tap:v` (taps ascending, values sorted) or `-`.
+//!
+//! The lines of `programs/c24.txt` that contain a loop block (`[b … ]`) are programs of the loop language of c26.rs
+//! (ticks × loop blocks: `defer_tick[_lazy]` in root-level / nested loops under `run_available_sync`, `'tick` and
+//! `'static` operators inside loops over several fed ticks); their cases are run by the engine of c26.rs
+//! (ops `send`, `send2`, `tick`, `avail` without injections) and answered by the loop model.
 use std::cell::RefCell;
 use std::collections::{BTreeMap, BTreeSet};
 use std::rc::Rc;
@@ -237,6 +242,19 @@ fn arith(rec: &mut Recorder, ws: &[&str]) -> Option<String> {
     Some(got)
 }
 
+/// a case runs either a flat pipeline (this file) or a loop program (engine of c26.rs)
+enum Any {
+    Flat(Option<Inst>),
+    Loop(Option<crate::c26::Inst>),
+}
+
+fn exec_any(rec: &mut Recorder, inst: &mut Any, line: &str) {
+    match inst {
+        Any::Flat(i) => exec_line(rec, i, line),
+        Any::Loop(i) => crate::c26::exec_line(rec, i, line),
+    }
+}
+
 fn exec_line(rec: &mut Recorder, inst: &mut Option<Inst>, line: &str) {
     let ws: Vec<&str> = line.split(' ').collect();
     let ans: Option<String> = match ws[0] {
@@ -307,9 +325,12 @@ fn exec_line(rec: &mut Recorder, inst: &mut Option<Inst>, line: &str) {
     rec.line(line, &ans.unwrap_or_else(|| "bad-op".into()));
 }
 
-fn prog_index(tag: &str) -> Option<usize> {
-    let dsl = tag.split(' ').find_map(|w| w.strip_prefix("prog="))?;
-    C24_PROGS.iter().position(|p| p.0 == dsl)
+fn inst_of_tag(tag: &str) -> Any {
+    let Some(dsl) = tag.split(' ').find_map(|w| w.strip_prefix("prog=")) else { return Any::Flat(None) };
+    if let Some(p) = C24L_PROGS.iter().find(|p| p.0 == dsl) {
+        return Any::Loop(Some(crate::c26::Inst::build(p.0, p.1)));
+    }
+    Any::Flat(C24_PROGS.iter().position(|p| p.0 == dsl).map(Inst::new))
 }
 
 fn gen_vals(rng: &mut Rng) -> String {
@@ -331,7 +352,7 @@ pub fn main(args: &Args) {
     let mut rec = Recorder::new("program case with at least one tick/avail after data was sent, or an arithmetic case");
     quiet();
     if let Some(rp) = &args.replay {
-        let mut inst: Option<Inst> = None;
+        let mut inst = Any::Flat(None);
         let mut nt = false;
         for l in hv_common::read_lines(rp) {
             if l.starts_with("#case") {
@@ -343,9 +364,9 @@ pub fn main(args: &Args) {
                 let n = ws.get(1).and_then(|x| x.parse().ok()).unwrap_or(0);
                 let tag = ws.get(2).copied().unwrap_or("");
                 rec.case(n, tag);
-                inst = prog_index(tag).map(Inst::new);
+                inst = inst_of_tag(tag);
             } else {
-                exec_line(&mut rec, &mut inst, &l);
+                exec_any(&mut rec, &mut inst, &l);
             }
         }
         if nt {
@@ -415,9 +436,24 @@ pub fn main(args: &Args) {
         n += 1;
     }
     // programs
-    while n < args.cases.max(arith_end + C24_PROGS.len() as u64) {
+    let nprogs = C24_PROGS.len() + C24L_PROGS.len();
+    while n < args.cases.max(arith_end + nprogs as u64) {
         let mut rng = root.fork(n);
-        let idx = (n as usize) % C24_PROGS.len();
+        let idx = (n as usize) % nprogs;
+        if idx >= C24_PROGS.len() {
+            // a loop program: ticks × loop blocks
+            let (dsl, f) = C24L_PROGS[idx - C24_PROGS.len()];
+            let mut inst = Some(crate::c26::Inst::build(dsl, f));
+            rec.case(n, &format!("prog={dsl}"));
+            rec.count(&format!("loopprog-{:02}", idx - C24_PROGS.len()));
+            for l in crate::c26::gen_lines(&mut rec, &mut rng, dsl) {
+                crate::c26::exec_line(&mut rec, &mut inst, &l);
+            }
+            crate::c26::exec_line(&mut rec, &mut inst, "avail");
+            rec.nontrivial();
+            n += 1;
+            continue;
+        }
         let mut inst = Some(Inst::new(idx));
         rec.case(n, &format!("prog={}", C24_PROGS[idx].0));
         rec.count(&format!("prog-{idx:02}"));
